@@ -626,7 +626,17 @@ class SInt:
         return s
 
     def bit_length(s):
-        raise OutOfModel('bit_length')
+        if s.lo is None or s.hi is None:
+            raise OutOfModel('bit_length of unbounded int')
+        a = abs(s)
+        top = max(abs(s.lo), abs(s.hi)).bit_length()
+        if top > 64:
+            raise OutOfModel('bit_length above 64 bits')
+        mk = (lambda v: z3.BitVecVal(v, W)) if a.bv else (lambda v: z3.IntVal(v))
+        e = mk(0)
+        for k in range(top, 0, -1):          # smallest k with a < 2^k
+            e = z3.If(a.e >= mk(1 << (k - 1)), mk(k), e) if k == top else z3.If(z3.And(a.e >= mk(1 << (k - 1)), a.e < mk(1 << k)), mk(k), e)
+        return SInt(e, 0, top)
 
     def __format__(s, spec):
         if in_message_context():
